@@ -1749,6 +1749,12 @@ impl DnsOutgoing {
         self.id = id;
     }
 
+    /// Marks this message as sent by unicast (or multicast): only a unicast message
+    /// carries its `id` on the wire, a multicast one always has ID 0.
+    pub fn set_multicast(&mut self, multicast: bool) {
+        self.multicast = multicast;
+    }
+
     pub const fn is_query(&self) -> bool {
         (self.flags & FLAGS_QR_MASK) == FLAGS_QR_QUERY
     }
